@@ -187,6 +187,34 @@ def extra_checks(ctx):
             got = (np.array(r.center), np.array(r.sigma), float(np.asarray(r.alpha).ravel()[0]))
             if not (np.array_equal(got[0], want[0]) and np.array_equal(got[1], want[1]) and got[2] == want[2]):
                 viol.append({"signature": "ellipsoid-update-differs", "message": f"ellipsoidal region {i} after update(indices={idxs}) is not (mean, covariance, scale) / untouched", "replay": {"kind": "ell", "idxs": idxs}})
+    # large subsets (deterministic): every listed design of a subset of more than a thousand designs is updated,
+    # whatever the size of the subset, and the unlisted ones are untouched
+    st["large_subset_updates"] = 0
+    for N, nsub in ([(1500, 1025), (1500, 1500)] if ctx.quick else [(1500, 1025), (1500, 1500), (2600, 2500), (4200, 4097), (2048, 2048)]):
+        for ctype in ("hyperrectangle", "hyperellipsoid"):
+            Xl = np.array([[k / 8192.0, 0.5] for k in range(N)])
+            class LM:
+                def predict(self, x):
+                    idx = np.rint(np.atleast_2d(x)[:, 0] * 8192.0).astype(int)
+                    mu = np.stack([idx / 8.0, -idx / 16.0], axis=1)
+                    return mu, np.array([np.diag([0.25, 1.0])] * len(idx))
+            ds = FixedPointsDesignSpace(Xl, 2, confidence_type=ctype)
+            idxs = list(range(N - nsub, N))[::-1]; sset = set(idxs)
+            ds.update(LM(), np.array(2.0), idxs)
+            st["large_subset_updates"] += 1
+            bad = []
+            for i, r in enumerate(ds.confidence_regions):
+                mu = np.array([i / 8.0, -i / 16.0])
+                if ctype == "hyperrectangle":
+                    want = (mu - 2.0 * np.array([0.5, 1.0]), mu + 2.0 * np.array([0.5, 1.0])) if i in sset else (np.array([-1e12] * 2), np.array([1e12] * 2))
+                    ok = np.array_equal(r.lower, want[0]) and np.array_equal(r.upper, want[1])
+                else:
+                    ok = (np.array_equal(np.asarray(r.center), mu) and float(np.asarray(r.alpha).ravel()[0]) == 2.0) if i >= N - nsub else True
+                if not ok:
+                    bad.append(i)
+            if bad:
+                viol.append({"signature": "large-subset-not-updated", "message": f"update over {nsub} of {N} designs ({ctype}): {len(bad)} listed designs do not show mean -/+ scale*std afterwards (first: design {bad[0]})",
+                             "replay": {"kind": "large", "N": N, "nsub": nsub, "ctype": ctype}})
     # real GP wrappers: centres equal predict() on the full matrix, for subsets incl. single designs
     from vopy.models import CorrelatedExactGPyTorchModel, IndependentExactGPyTorchModel, GPyTorchModelListExactModel
     npr = np.random.RandomState(ctx.seed + 14)
